@@ -147,7 +147,8 @@ def run(tier, seed):
     quick = tier == "quick"
     b = blocks_part(rep, tier, rng)
     # (b) layouts
-    asts = mixed_programs(rng, 250 if quick else 4000) + gen_calls.chain_programs(rng, 60 if quick else 800)
+    asts = mixed_programs(rng, 250 if quick else 4000) + gen_calls.chain_programs(rng, 60 if quick else 800) \
+        + gen_calls.bracket_programs(rng, 40 if quick else 500)
     progs = [{"id": "L%d" % i, "ast": a} for i, a in enumerate(asts)]
     preds, st = core_replay.predict(progs, tag="c10", shards=8, dev=("F28",))
     s = core_replay.replay(progs, preds, rep, rng, n_layouts=6 if quick else 16, contexts=("top", "fn3"))
